@@ -4,7 +4,9 @@ package pppoe
 
 import (
 	"context"
+	"fmt"
 	"net"
+	"os"
 	"sync"
 	"sync/atomic"
 	"testing"
@@ -25,6 +27,7 @@ import (
 	"github.com/veesix-networks/osvbng/pkg/ifmgr"
 	"github.com/veesix-networks/osvbng/pkg/logger"
 	"github.com/veesix-networks/osvbng/pkg/ppp"
+	"github.com/veesix-networks/osvbng/pkg/svcgroup"
 )
 
 type c07Bus struct {
@@ -32,6 +35,7 @@ type c07Bus struct {
 	aaaReqs int
 	egress  int
 	last    *events.AAARequestEvent
+	sent    [][]byte // PPP payloads (protocol + packet) of the frames the session sent
 }
 
 func (b *c07Bus) egressCount() int {
@@ -45,6 +49,9 @@ func (b *c07Bus) Publish(topic string, ev events.Event) {
 	defer b.mu.Unlock()
 	if topic == events.TopicEgress {
 		b.egress++
+		if e, ok := ev.Data.(*events.EgressEvent); ok && len(e.Packet.RawData) > 6 {
+			b.sent = append(b.sent, append([]byte(nil), e.Packet.RawData[6:]...))
+		}
 	}
 	if topic == events.TopicAAARequest {
 		b.aaaReqs++
@@ -101,6 +108,8 @@ func c07Component() (*Component, *c07Bus) {
 		eventBus: bus,
 		ifMgr:    ifMgr,
 		cfgMgr:   &c07CfgMgr{cfg: &config.Config{}},
+
+		svcGroupResolver: svcgroup.New(),
 	}
 	return c, bus
 }
@@ -206,6 +215,104 @@ func c07BacklogDHCPv6(n []uint64) string {
 	}
 	drained := len(c.dhcp6Sem) == 0 && bus.egressCount() == before+accepted
 	return c07Ok(c07U(uint64(returned)), c07U(uint64(accepted)), c07Bool(echo), c07Bool(drained))
+}
+
+// lastSent returns the most recent packet with the given protocol and code the session sent (code,id,len,data).
+func (b *c07Bus) lastSent(proto uint16, code byte) []byte {
+	b.mu.Lock()
+	defer b.mu.Unlock()
+	for i := len(b.sent) - 1; i >= 0; i-- {
+		f := b.sent[i]
+		if len(f) >= 6 && uint16(f[0])<<8|uint16(f[1]) == proto && f[2] == code {
+			return f[2:]
+		}
+	}
+	return nil
+}
+
+// fzseq <start phase> <step> ...: ONE session driven through a sequence of steps, every call under the watchdog; crash / hang
+// observables only.  A step is a byte string whose first byte is its kind:
+//
+//	00 PP PP <payload>   deliver the PPP frame (protocol PPPP) through handlePPP
+//	01 PP PP             Configure-Ack for the last Configure-Request the session sent on protocol PPPP
+//	02 PP PP             Configure-Nak/Rej echo of it (code 03) — a peer that refuses everything
+//	03 <value+name>      CHAP Response to the last Challenge the session sent (value-size 16)
+//	04 PH                the host moves the session to phase PH (AAA / dataplane side of the state machine)
+//	05 AL                AAA verdict (AL != 0 accept) through onAuthResult
+//	06                   start the NCP automata (what startNCP does after allocation)
+//	07                   terminate()
+func c07Sequence(n []uint64, f []string) string {
+	s, bus := c07Session(ppp.Phase(c07Num(n, 0)))
+	s.Attributes = map[string]string{}
+	defer s.lcp.FSM().Kill()
+	defer s.ipcp.FSM().Kill()
+	defer s.ipv6cp.FSM().Kill()
+	defer func() { s.mu.Lock(); s.stopCHAPRetryTimer(); s.mu.Unlock() }()
+	s.mu.Lock()
+	s.lcp.FSM().Open()
+	s.lcp.FSM().Up()
+	s.mu.Unlock()
+	for k := range f {
+		st := c07Arg(f, k)
+		if len(st) == 0 {
+			continue
+		}
+		var proto uint16
+		if len(st) >= 3 {
+			proto = uint16(st[1])<<8 | uint16(st[2])
+		}
+		ok := true
+		switch st[0] {
+		case 0:
+			if len(st) >= 3 {
+				ok = c07Deliver(s, proto, append(make([]byte, 0, len(st)-3), st[3:]...))
+			}
+		case 1, 2:
+			if req := bus.lastSent(proto, ppp.ConfReq); req != nil {
+				ack := append(make([]byte, 0, len(req)), req...)
+				ack[0] = ppp.ConfAck
+				if st[0] == 2 {
+					ack[0] = ppp.ConfNak
+				}
+				ok = c07Deliver(s, proto, ack)
+			}
+		case 3:
+			if ch := bus.lastSent(ppp.ProtoCHAP, ppp.CHAPChallenge); ch != nil {
+				body := append([]byte{16}, st[1:]...)
+				fr := append([]byte{ppp.CHAPResponse, ch[1], byte((4 + len(body)) >> 8), byte(4 + len(body))}, body...)
+				ok = c07Deliver(s, ppp.ProtoCHAP, append(make([]byte, 0, len(fr)), fr...))
+			}
+		case 4:
+			if len(st) >= 2 {
+				ok = c07Returns(c07CallWatchdog, func() { s.mu.Lock(); defer s.mu.Unlock(); s.Phase = ppp.Phase(st[1]) })
+			}
+		case 5:
+			ok = c07Returns(c07CallWatchdog, func() {
+				s.mu.Lock()
+				defer s.mu.Unlock()
+				s.onAuthResult(len(st) >= 2 && st[1] != 0, map[string]interface{}{})
+			})
+		case 6:
+			ok = c07Returns(c07CallWatchdog, func() {
+				s.mu.Lock()
+				defer s.mu.Unlock()
+				s.ipcp.FSM().Open()
+				s.ipcp.FSM().Up()
+				s.ipv6cp.FSM().Open()
+				s.ipv6cp.FSM().Up()
+			})
+		case 7:
+			ok = c07Returns(c07CallWatchdog, func() { s.terminate() })
+		}
+		if !ok {
+			return "hang"
+		}
+		if os.Getenv("VERIF_C07_DEBUG") != "" {
+			fmt.Fprintf(os.Stderr, "c07seq step %d kind %d -> phase %v lcp %v ipcp %v ipv6cp %v aaa %d\n", k, st[0], s.Phase,
+				s.lcp.FSM().State(), s.ipcp.FSM().State(), s.ipv6cp.FSM().State(), bus.aaaReqs)
+		}
+	}
+	return "nocrash"
 }
 
 // bkevd6 <cap> <events>: an arbitrary history of 'A' (a DHCPv6 Request reaches the receive handler) and 'F' (the provider
@@ -344,6 +451,8 @@ func c07Sess(entry string, n []uint64, f []string) string {
 			k = "2"
 		}
 		return c07Ok(k, c07TB([]byte(s.Username)))
+	case "fzseq":
+		return c07Sequence(n, f)
 	case "bkevd6":
 		return c07EventsDHCPv6(n, data)
 	case "bkevra":
